@@ -1967,6 +1967,18 @@ impl XmlDocumentTypeDeclaration {
                     parser::DeclarationMarkup::Entity(v) => match v {
                         parser::DeclarationEntity::GeneralEntity(v) => {
                             let entity = XmlEntity::node(v, declaration_id, context);
+                            // WFC: PEs in Internal Subset. A parameter-entity reference cannot
+                            // occur within a markup declaration of the internal subset.
+                            let parameter = entity.as_entity().and_then(|e| {
+                                let e = e.borrow();
+                                e.values().unwrap_or_default().iter().find_map(|p| match p {
+                                    XmlEntityValue::Parameter(p) => Some(p.to_string()),
+                                    _ => None,
+                                })
+                            });
+                            if let Some(p) = parameter {
+                                return Err(error::Error::InvalidData(format!("%{};", p)));
+                            }
                             declaration.borrow_mut().push_child(entity);
                         }
                         parser::DeclarationEntity::ParameterEntity(v) => {
